@@ -68,12 +68,17 @@ class FakeConnection(object):
         self.shutdown_called = False
         self.fault_recv = None  # ('timeout'|'reset', after_n_bytes)
         self.fault_send = None  # 'reset'
+        self.fault_handshake = False    # the TLS handshake fails
+        self.fault_shutdown = None      # errno raised by shutdown()
         self.delivered = 0
         self.on_empty = None    # scheduler hook: called when inbox is empty
         self.on_send = None
 
     # --- what the session calls ---------------------------------------
     def do_handshake(self):
+        if self.fault_handshake:
+            import ssl as _ssl
+            raise _ssl.SSLError(1, '[SSL] simulated handshake failure')
         return None
 
     def getpeercert(self, binary_form=False):
@@ -120,6 +125,10 @@ class FakeConnection(object):
 
     def shutdown(self, how):
         self.shutdown_called = True
+        if self.fault_shutdown is not None:
+            import os as _os
+            raise OSError(self.fault_shutdown,
+                          _os.strerror(self.fault_shutdown))
 
     def close(self):
         self.closed = True
